@@ -26,6 +26,7 @@ static void scenario(vrf::Round& R, const char* kind, MakeTrig make_trigger, Mak
     int nother = static_cast<int>(rng.range(0, 1));
     int pre_delay = static_cast<int>(rng.range(0, 6));
     int value = static_cast<int>(rng.range(1, 1000000));
+    bool second_trigger = rng.chance(40);
     Shared sh;
     // hand-over mode (explicit lines only): the trigger and the detectors are built first, then the creator gives up every
     // handle of its own, so that only the trigger and the detectors still refer to the line
@@ -42,7 +43,7 @@ static void scenario(vrf::Round& R, const char* kind, MakeTrig make_trigger, Mak
         final_det.reset(new TripWireDetector(make_detector()));
     }
     R.program(std::string("{\"line\":\"") + kind + "\",\"creator_keeps_a_handle\":" + (handover ? "0" : "1") + ",\"life\":\"" + LIFEN[life] + "\",\"detectors\":" + std::to_string(ndet) +
-              ",\"other_line_detectors\":" + std::to_string(nother) + ",\"pre_delay\":" + std::to_string(pre_delay) + "}");
+              ",\"other_line_detectors\":" + std::to_string(nother) + ",\"pre_delay\":" + std::to_string(pre_delay) + ",\"second_trigger_afterwards\":" + (second_trigger ? "1" : "0") + "}");
     R.spawn([&] {
         // the trigger thread
         std::unique_ptr<TripWireTrigger> keep_other;
@@ -100,6 +101,15 @@ static void scenario(vrf::Round& R, const char* kind, MakeTrig make_trigger, Mak
             sh.trip_call.store(vrf::now(), std::memory_order_relaxed);
             final_owner.reset();  // trips the line
             sh.trip_ret.store(vrf::now(), std::memory_order_relaxed);
+            // one-way also against a second use: another trigger built on the tripped line, while it lives and after it died,
+            // leaves the line tripped (the polling detectors watch for a relapse as well)
+            if (!handover && second_trigger) {
+                std::unique_ptr<TripWireTrigger> again(new TripWireTrigger(make_trigger()));
+                vrf::hyield();
+                if (!make_detector().isTripped()) vrf::violation("oracle:trip_line_re_armed_by_a_second_trigger", "{\"when\":\"second trigger alive\"}");
+                again.reset();
+                if (!make_detector().isTripped()) vrf::violation("oracle:trip_line_re_armed_by_a_second_trigger", "{\"when\":\"second trigger destroyed\"}");
+            }
         }
         t0_done.store(1, std::memory_order_relaxed);
         for (int i = 0; i < 2; i++) vrf::hyield();
